@@ -237,6 +237,14 @@ def run(ctx):
                 cases.append(('tostring', f'tostring {f} {enc_scored}', 'ok ' + enc_str(out) if out is not None else err, desc))
             elif f == 'prolog':
                 cases.append(('prolog', f'prolog_{lang} {enc_batch}', 'ok ' + enc_str(out) if out is not None else err, desc))
+            elif f == 'json':
+                def kscore(x):
+                    return 'ninf' if x == -float('inf') else str(int(x * 64))
+                if all(st.score == -float('inf') or st.score * 64 == int(st.score * 64) for sent in batch for st in sent):
+                    enc_k = f'{len(batch)} ' + ' '.join(f'{len(sent)} ' + ' '.join(kscore(st.score) + ' ' + T.enc_tree(st.tree) for st in sent)
+                                                      for sent in batch)
+                    # the text of `json.dumps(…, indent=4)` itself, character by character (Print/Json.lean)
+                    cases.append(('json_text', f'json_text {enc_k}', 'ok ' + enc_str(out) if out is not None else err, desc))
             elif f == 'html':
                 enc_html = f'{len(batch)} ' + ' '.join(f'{len(sent)} ' + ' '.join(enc_str(f'{st.score:.5e}') + ' ' + T.enc_tree(st.tree) for st in sent)
                                                      for sent in batch)
